@@ -267,6 +267,22 @@ package protocol
 //@   loop 0 invariant 0 <= d.remain && d.remain <= 0x7fffffff && 0 <= i
 //@   loop 0 decreases d.remain + ite(d.err == nil, 1, 0)
 
+//@ property C06
+
+// A protocol.Conn (the connection type of the Transport) gives every exchange a correlation id no earlier exchange on it
+// used: the id is the result of an atomic increment (by exactly one) of the connection's counter, and that id is the one
+// the request is framed with and the response is checked against (RoundTrip in roundtrip.go rejects any other id).
+//@ func (*Conn).RoundTrip
+//@   option noframe
+//@   modifies heap
+//@   callsite atomic.AddInt32 requires $0 == &c.idgen && $1 == 1
+//@   callsite RoundTrip requires $2 == correlationID
+//@ func RoundTrip
+//@   option noframe
+//@   modifies heap
+//@   callsite WriteRequest requires $2 == correlationID
+//@   ensures result0 != nil ==> id == correlationID
+
 //@ property C05
 
 //@ spec pageOK(p any) bool
